@@ -1,6 +1,7 @@
 //! C01: the real runtime (`EventLoops` with n loop threads) and concurrent submitter threads.
-//! body: `<loops> <threads> <per_thread> <prio-mode> <work>`  prio-mode: none | same | mixed ; work: ret | sleep | panic-some
-//! out : `once=<n> lost=<n> dup=<n>` (counts of tasks that ran exactly once / never within the budget / more than once)
+//! body: `<loops> <threads> <per_thread> <prio-mode> <work>`  prio-mode: none | same | mixed ; work: ret | yield | sleep (a hooked 1-3 ms nanosleep) | panic-some
+//! out : `once=<n> lost=<n> dup=<n> unfinished=<n>` (tasks that ran exactly once / never within the budget / more than once;
+//!       tasks that should have returned but had not when the budget ended)
 use crate::rng::Rng;
 use open_coroutine_core::config::Config;
 use open_coroutine_core::net::EventLoops;
@@ -13,9 +14,11 @@ pub fn gen(r: &mut Rng, thorough: bool) -> String {
     let threads = r.range(1, if thorough { 8 } else { 6 });
     let per = if thorough { r.range(50, 3000) } else { r.range(20, 600) };
     let prio = *r.pick(&["none", "same", "mixed", "mixed"]);
-    let work = *r.pick(&["ret", "ret", "yield", "panic-some"]);
+    let work = *r.pick(&["ret", "ret", "yield", "sleep", "panic-some"]);
     format!("{loops} {threads} {per} {prio} {work}")
 }
+
+static FIN: AtomicU32 = AtomicU32::new(0);
 
 pub fn exec(body: &str, emit: &mut dyn FnMut(&str)) {
     std::panic::set_hook(Box::new(|_| {}));
@@ -47,9 +50,15 @@ pub fn exec(body: &str, emit: &mut dyn FnMut(&str)) {
                     _ = counts[idx].fetch_add(1, Ordering::SeqCst);
                     match work.as_str() {
                         "yield" => { if let Some(s) = open_coroutine_core::coroutine::suspender::Suspender::<(), ()>::current() { s.suspend(); } }
+                        "sleep" => {
+                            // a hooked sleep of 1-3 ms: the task parks in its loop's timer and may be resumed by another loop
+                            let ts = libc::timespec { tv_sec: 0, tv_nsec: 1_000_000 * (1 + (idx % 3) as i64) };
+                            _ = open_coroutine_core::syscall::nanosleep(None, &ts, std::ptr::null_mut());
+                        }
                         "panic-some" => { if idx % 7 == 3 { panic!("boom") } }
                         _ => {}
                     }
+                    _ = FIN.fetch_add(1, Ordering::SeqCst);
                     Some(idx)
                 }, None, p);
                 std::mem::forget(h);
@@ -59,11 +68,12 @@ pub fn exec(body: &str, emit: &mut dyn FnMut(&str)) {
     for h in hs { _ = h.join(); }
     // wait until every task has run (budget 4 s), then a little longer to see duplicates
     let t0 = Instant::now();
-    while t0.elapsed() < Duration::from_millis(4000) && counts.iter().any(|c| c.load(Ordering::SeqCst) == 0) {
+    let expect_fin = if work == "panic-some" { (0..total).filter(|i| i % 7 != 3).count() } else { total } as u32;
+    while t0.elapsed() < Duration::from_millis(4000) && (counts.iter().any(|c| c.load(Ordering::SeqCst) == 0) || FIN.load(Ordering::SeqCst) < expect_fin) {
         std::thread::sleep(Duration::from_millis(5));
     }
     std::thread::sleep(Duration::from_millis(60));
     let (mut once, mut lost, mut dup) = (0, 0, 0);
     for c in counts.iter() { match c.load(Ordering::SeqCst) { 0 => lost += 1, 1 => once += 1, _ => dup += 1 } }
-    emit(&format!("once={once} lost={lost} dup={dup}"));
+    emit(&format!("once={once} lost={lost} dup={dup} unfinished={}", expect_fin.saturating_sub(FIN.load(Ordering::SeqCst))));
 }
